@@ -13,7 +13,7 @@ META = {
                   "list elements) with a symbolic selector string of up to 7 characters, against an independently enumerated path set; real "
                   "objects with embedded objects/extensions are checked through validate(), add_markings() and parse() over their full path "
                   "set plus near misses (selector-enumerated); SELECTOR_REGEX is compared with the selector grammar for all strings (regex inclusion).",
-    "level_text_more": 'Also: language markings with every path / near miss at construction, parse and new_version. Lists of selectors: two symbolic strings <= 4 chars (E1c), and near misses placed before/between/after valid selectors on real objects through 7 functions.',
+    "level_text_more": 'Also: language markings with every path / near miss at construction, parse and new_version. Lists of selectors: two symbolic strings <= 4 chars (E1c), and near misses placed before/between/after valid selectors on real objects through 7 functions. Rounds 5-6: one container instance stored at several places of an object or dictionary; class construction of types declared with extension_name.',
     "level_note": "Trusts CrossHair/z3; selector strings longer than 7 characters are covered only through the enumerated tables; three fixture "
                   "objects (2.1 Malware, 2.1 File with ntfs-ext, 2.0 Indicator) stand for 'all objects' in the object-level obligation.",
     "technique": "CrossHair symbolic execution of the real selector functions (symbolic values and selector string), regex-to-z3 inclusion; "
